@@ -26,7 +26,10 @@ def mc_configs(tier):
     add(version=0)
     add(version=1, steps=2, maxsel=2)
     add(version=2, nrbe=2)
+    add(version=3, steps=2, maxsel=2)
     if tier == 'thorough':
+        add(version=3, steps=4)
+        add(version=3, lmin=2, lmax=3, steps=3)
         add(version=0, steps=3, maxsel=2)
         add(version=1, steps=4)
         add(version=2, steps=4)
@@ -43,7 +46,7 @@ def random_configs(tier, rng):
     for i in range(30 if tier == 'quick' else 300):
         D = rng.choice([2, 2, 2, 3])
         lmin, lmax = rng.choice([(1, 2), (1, 2), (1, 3), (2, 3)])
-        c = dict(D=D, lmin=lmin, lmax=lmax, version=rng.choice([0, 0, 1, 2]), nrbe=rng.choice([1, 1, 2]), auto=rng.random() < 0.2,
+        c = dict(D=D, lmin=lmin, lmax=lmax, version=rng.choice([0, 0, 1, 2, 3]), nrbe=rng.choice([1, 1, 2]), auto=rng.random() < 0.2,
                  single=rng.random() < 0.15, maxleaves=40 if D == 2 else 48)
         if rng.random() < 0.3:
             c['a'] = [-3.0 + d for d in range(D)]
@@ -51,7 +54,7 @@ def random_configs(tier, rng):
         c['name'] = 'random-config %d' % i
         out.append((c, rng.randint(3, 6) if D == 2 else rng.randint(2, 3)))
     # corner-chasing histories: deep chains of split/extend on one corner for every version
-    for version in (0, 1, 2):
+    for version in (0, 1, 2, 3):
         for (lmin, lmax) in ([(1, 2), (1, 3)] if tier == 'quick' else [(1, 2), (1, 3), (1, 4)]):
             for nrbe in ([1] if tier == 'quick' else [1, 2]):
                 out.append((dict(D=2, lmin=lmin, lmax=lmax, version=version, nrbe=nrbe, chain=rng.randint(0, 3), maxleaves=60,
